@@ -630,6 +630,20 @@ def _bucket_param_domain(ctx: Ctx, bp, rel: str):
                     sized.add(c.func.value.id)
     if not sized:
         raise AnalysisError("C14: no data-set-sized list in _get_bucket_batch_sampler_params")
+    # a list derived element by element from a sized one (`lens = [l for (l, _) in len_idx]`, `sorted(...)`, `list(...)`) is sized too
+    for _ in range(4):
+        for n in own_nodes(bp.node):
+            if isinstance(n, ast.Assign) and len(n.targets) == 1 and isinstance(n.targets[0], ast.Name) and n.targets[0].id not in sized:
+                v = n.value
+                src = None
+                if isinstance(v, (ast.ListComp, ast.GeneratorExp)) and len(v.generators) == 1 and not v.generators[0].ifs:
+                    src = v.generators[0].iter
+                elif isinstance(v, ast.Call) and call_name(v) in ("sorted", "list", "tuple", "reversed") and v.args:
+                    src = v.args[0]
+                    if isinstance(src, (ast.ListComp, ast.GeneratorExp)) and len(src.generators) == 1 and not src.generators[0].ifs:
+                        src = src.generators[0].iter
+                if isinstance(src, ast.Name) and src.id in sized:
+                    sized.add(n.targets[0].id)
 
     def guarded(node, names):
         for t, pol in guards_of(pm, node):
